@@ -408,17 +408,29 @@ def wire (sender : St) (from_ : Nat) : Out → Option (Nat × Datagram)
     let m : Stun := { cls := .response, txid := t, mi := .validRemote }
     some (to, ({ src := from_, kind := .stun m } : Datagram))
   | .appSent to p => some (to, ({ src := from_, kind := .nonStun p } : Datagram))
-  | _ => none
+  | .accepted => none
+  | .warnBadMi => none
+  | .warnNoMi => none
+  | .roleConflict => none
+  | .pairState _ _ => none
+  | .selected _ _ => none
+  | .connectedSig => none
+  | .appData _ => none
+  | .appNoRoute => none
+
+/-- the datagrams among `outs` that are addressed to `dest`, as they arrive there -/
+def route (sender : St) (from_ dest : Nat) : List Out → List Datagram
+  | [] => []
+  | o :: rest =>
+    match wire sender from_ o with
+    | some x => if x.1 == dest then x.2 :: route sender from_ dest rest else route sender from_ dest rest
+    | none => route sender from_ dest rest
 
 def Net.emitA (n : Net) (r : St × List Out) : Net :=
-  let ds := r.2.filterMap (wire r.1 n.addrA)
-  { n with a := r.1, evA := n.evA ++ r.2,
-           toB := n.toB ++ (ds.filter (fun x => x.1 == n.addrB)).map (·.2) }
+  { n with a := r.1, evA := n.evA ++ r.2, toB := n.toB ++ route r.1 n.addrA n.addrB r.2 }
 
 def Net.emitB (n : Net) (r : St × List Out) : Net :=
-  let ds := r.2.filterMap (wire r.1 n.addrB)
-  { n with b := r.1, evB := n.evB ++ r.2,
-           toA := n.toA ++ (ds.filter (fun x => x.1 == n.addrA)).map (·.2) }
+  { n with b := r.1, evB := n.evB ++ r.2, toA := n.toA ++ route r.1 n.addrB n.addrA r.2 }
 
 def Net.opA (n : Net) (op : Op) : Net := n.emitA (step n.a op)
 def Net.opB (n : Net) (op : Op) : Net := n.emitB (step n.b op)
